@@ -160,8 +160,11 @@ class BatchWorld:
                 self.ack_lost_calls.append((proc, tuple(getattr(conn, 'cur_args', None) or ())))
 
         if site == 'pre':
+            is_write = q[:6].upper() in ('INSERT', 'UPDATE', 'DELETE')
             for k in ('deadlock', 'lock_timeout', 'lost_conn', 'fatal'):
                 r = rates.get(k)
+                if r and k == 'fatal' and is_write:
+                    r *= 10  # plain writes of client-side transactions are rare next to the polling reads
                 if r and self.s_dbfault.chance(min(r * boost, 0.2)):
                     self.ctx.fault('db.' + k)
                     return k
